@@ -106,8 +106,9 @@ RuleRoundTrip == (WDone /\ res = "ok") => UnparseRule(acc) = toks /\ ParseRule(U
 (* Part B: channels, spellings, damages *)
 Channels == {"str", "slice", "reader", "value", "json_slice", "json_reader", "json_tree", "jsonpretty_reader"}
 Spellings6 == {"plain", "ws", "uescape", "trailing_garbage", "concatenated", "truncated"}
-\* one leaf of the document: string shorter / longer / empty, number negative / beyond 32 bits, member removed
-DamageKinds == {"shorter", "longer", "empty", "negative", "huge", "removed"}
+\* one leaf of the document: string shorter / longer / empty, number negative / beyond 32 bits / fractional,
+\* member removed, unknown member added (holding a float, null or nested value)
+DamageKinds == {"shorter", "longer", "empty", "negative", "huge", "fraction", "removed", "unknown_member"}
 \* C17: the verdict (and value) is a function of the content alone
 ChannelIndependent(verdictOf(_, _)) ==
   \A content \in {"asis"} \cup DamageKinds, c1, c2 \in Channels : verdictOf(content, c1) = verdictOf(content, c2)
